@@ -424,7 +424,7 @@ def main():
           for pid in ALL if pid not in [c["property_id"] for c in checks]]
     man = {
         "version": 1,
-        "setup_cmd": "cd lean && lake build 2>&1 | tail -5",
+        "setup_cmd": "cd lean && lake build",
         "hooks": {
             "guard": "TERRAPOWER_ARMI_VERIF",
             "enable": "no hooks: every property is observed through armi's public API; checks import armi from /repo's working tree",
